@@ -531,3 +531,126 @@ Proof.
   { unfold arglist_ok in Hok. apply andb_true_iff in Hok as [Hok _]. apply andb_true_iff in Hok as [_ Hok]. exact Hok. }
   rewrite (resolve_items ev allowed (al_items a) rem Hk Hitems). reflexivity.
 Qed.
+
+(* layout-invariance: two renderings of the same argument list give the same result *)
+Corollary layout_invariance keywords tag allowed ev lay lay' a : arglist_ok tag allowed a = true ->
+  run_tag keywords tag allowed ev (print lay tag a) = run_tag keywords tag allowed ev (print lay' tag a).
+Proof. intro H. rewrite !run_tag_print_denote by exact H. reflexivity. Qed.
+
+(* the self-closing slash changes nothing but the `self-closing` bit *)
+Definition drop_closed (r : rres (list value * list (value * value) * list str * bool))
+  : rres (list value * list (value * value) * list str) :=
+  rbind r (fun '(a, k, f, _) => ROk (a, k, f)).
+
+Corollary slash_invariance keywords tag allowed ev lay lay' items :
+  arglist_ok tag allowed (mkarglist items true) = true ->
+  drop_closed (run_tag keywords tag allowed ev (print lay tag (mkarglist items true)))
+  = drop_closed (run_tag keywords tag allowed ev (print lay' tag (mkarglist items false))).
+Proof.
+  intro H. rewrite (run_tag_print_denote keywords tag allowed ev lay _ H).
+  rewrite (run_tag_print_denote keywords tag allowed ev lay' (mkarglist items false)) by exact H.
+  unfold denote, drop_closed. cbn [al_items al_slash].
+  destruct (den_items ev items) as [ps|e]; [|reflexivity]. cbn [rbind].
+  destruct (bind_params keywords ps) as [[args kw]|e]; reflexivity.
+Qed.
+
+(* the canonical text is the leaf printed with the canonical (empty) layout *)
+Lemma print_atom_canonical a : print_atom canonical_layout a = canon_atom a.
+Proof. destruct a; reflexivity. Qed.
+Lemma print_filters_canonical : forall fs lay, (forall p, lay p = []) -> print_filters lay fs = concat (map canon_filt fs).
+Proof.
+  induction fs as [|[n x] fs IH]; intros lay Hl; [reflexivity|].
+  cbn [print_filters map concat]. unfold w0. rewrite !Hl. cbn [filter app]. unfold canon_filt at 1. cbn [fst snd].
+  rewrite (IH (sub lay 5)) by (intro p; apply Hl).
+  destruct x as [x|]; cbn [app]; [|rewrite <- app_assoc; reflexivity].
+  assert (E : print_atom (sub lay 4) x = canon_atom x).
+  { destruct x; cbn [print_atom canon_atom]; try reflexivity. unfold w0, sub. rewrite !Hl. reflexivity. }
+  rewrite E. rewrite <- !app_assoc. reflexivity.
+Qed.
+Lemma print_leaf_canonical l : print_leaf canonical_layout l = canon_leaf l.
+Proof.
+  unfold print_leaf, canon_leaf. rewrite (print_filters_canonical _ (sub canonical_layout 1)) by reflexivity.
+  destruct (lf_head l); reflexivity.
+Qed.
+
+(* leaf_text_canonical, end to end: a tag with one positional leaf, printed in any layout - the attribute that
+   parse_tag builds hands the evaluator the leaf printed WITHOUT any insignificant white space *)
+Theorem leaf_text_canonical_lemma allowed lay tag l :
+  arglist_ok tag allowed (mkarglist [IPos (SLeaf l)] false) = true ->
+  exists n ta a parts,
+    parse_tag (print lay tag (mkarglist [IPos (SLeaf l)] false)) = Ok (n, [ta; a])
+    /\ a_value a = NStruct TSimple None [NVal parts] None
+    /\ leaf_text parts = print_leaf canonical_layout l.
+Proof.
+  intro Hok. destruct (parse_tag_print allowed lay tag _ Hok) as (attrs & Hp & Hkv).
+  cbn [items_with_slash al_items al_slash app map] in Hkv.
+  destruct attrs as [|ta [|a [|? ?]]]; try discriminate.
+  apply cons_inj in Hkv as [_ Hkv]. apply cons_inj in Hkv as [Ha _].
+  destruct (kv_split _ _ Ha) as [_ Hv]. cbn [item_node top_ast] in Hv.
+  exists (print lay tag (mkarglist [IPos (SLeaf l)] false)), ta, a, (parts_of_leaf None l).
+  split; [exact Hp|]. split; [exact Hv|]. rewrite print_leaf_canonical. apply leaf_text_canon. congruence.
+Qed.
+
+(* ================================================================================================ *)
+(* F. rewriting leaves (quote style)                                                                 *)
+(* ================================================================================================ *)
+Section LeafMap.
+Variable ev : str -> rres value.
+Variable f : leaf -> leaf.
+Hypothesis Hf : forall l, ev (canon_leaf (f l)) = ev (canon_leaf l).
+
+Lemma den_vmap : forall n v, vsize v <= n -> den_val ev (vmap f v) = den_val ev v.
+Proof.
+  induction n as [|n IH]; intros v Hn.
+  { destruct v; cbn in Hn; lia. }
+  destruct v as [l|items|ents]; cbn [vmap].
+  - cbn [den_val]. apply Hf.
+  - rewrite !den_list. cbn [vsize] in Hn.
+    assert (Hgo : forall its acc, (forall p, In p its -> vsize (snd p) <= n) ->
+               dlist ev (map (fun p : bool * sval => (fst p, vmap f (snd p))) its) acc = dlist ev its acc).
+    { induction its as [|[s x] its IHi]; intros acc Hsz; [reflexivity|].
+      cbn [map dlist fst snd]. rewrite (IH x (Hsz (s, x) (or_introl eq_refl))).
+      destruct (den_val ev x) as [d|e]; [|reflexivity].
+      destruct s; [destruct (iter_value d); [|reflexivity]|]; apply IHi; intros p Hp; apply Hsz; right; exact Hp. }
+    apply Hgo. intros p Hp. pose proof (fold_sum_in (fun p => vsize (snd p)) items p Hp). cbn beta in *. lia.
+  - rewrite !den_dict. cbn [vsize] in Hn.
+    assert (Hgo : forall es acc, (forall p, In p es -> vsize (snd p) <= n) ->
+               ddict ev (map (fun p : option leaf * sval => (option_map f (fst p), vmap f (snd p))) es) acc = ddict ev es acc).
+    { induction es as [|[k x] es IHe]; intros acc Hsz; [reflexivity|].
+      cbn [map fst snd]. destruct k as [kl|]; cbn [option_map ddict].
+      - rewrite Hf. destruct (ev (canon_leaf kl)) as [kv|e]; [|reflexivity].
+        rewrite (IH x (Hsz (Some kl, x) (or_introl eq_refl))).
+        destruct (den_val ev x) as [d|e]; [|reflexivity]. destruct (hashable kv); [|reflexivity].
+        apply IHe. intros p Hp. apply Hsz. right. exact Hp.
+      - rewrite (IH x (Hsz (None, x) (or_introl eq_refl))).
+        destruct (den_val ev x) as [d|e]; [|reflexivity]. destruct d; try reflexivity.
+        apply IHe. intros p Hp. apply Hsz. right. exact Hp. }
+    apply Hgo. intros p Hp. pose proof (fold_sum_in (fun p => vsize (snd p)) ents p Hp). cbn beta in *. lia.
+Qed.
+
+Lemma den_items_imap : forall items, den_items ev (map (imap f) items) = den_items ev items.
+Proof.
+  induction items as [|it items IH]; [reflexivity|]. cbn [map den_items]. rewrite IH.
+  destruct it as [v|k v|v|fl]; cbn [imap]; try rewrite (den_vmap (vsize v) v (le_n _)); reflexivity.
+Qed.
+
+Lemma flags_imap : forall items, flags_of (map (imap f) items) = flags_of items.
+Proof.
+  induction items as [|it items IH]; [reflexivity|]. cbn [map flags_of flat_map]. fold (flags_of (map (imap f) items)).
+  fold (flags_of items). rewrite IH. destruct it; reflexivity.
+Qed.
+
+Lemma denote_amap keywords a : denote keywords ev (amap f a) = denote keywords ev a.
+Proof. unfold denote, amap. cbn [al_items al_slash]. rewrite den_items_imap, flags_imap. reflexivity. Qed.
+End LeafMap.
+
+(* quote style: if the evaluator does not distinguish the two quote characters around a body that contains neither a
+   quote nor a backslash (Django does not), writing the argument list with the other quote style - in any layout -
+   gives the same result *)
+Corollary quote_style_invariance keywords tag allowed ev lay lay' a :
+  (forall l, ev (canon_leaf (swap_leaf l)) = ev (canon_leaf l)) ->
+  arglist_ok tag allowed a = true -> arglist_ok tag allowed (swap_quotes a) = true ->
+  run_tag keywords tag allowed ev (print lay tag (swap_quotes a)) = run_tag keywords tag allowed ev (print lay' tag a).
+Proof.
+  intros Hq H1 H2. rewrite !run_tag_print_denote by assumption. apply denote_amap. exact Hq.
+Qed.
